@@ -295,7 +295,10 @@ func (s *ResettableKeystore) worker() {
 				newKeys, err := s.put(op.ctx, op.keys)
 				op.response <- operationResponse{multihashes: newKeys, err: err}
 				if err != nil {
-					if size, refreshErr := refreshSize(op.ctx, s.ds); refreshErr == nil {
+					// The operation may have been applied in part. Recount what is
+					// stored - not with the operation's own context: a context that
+					// has ended is the most ordinary reason for the failure.
+					if size, refreshErr := refreshSize(context.WithoutCancel(op.ctx), s.ds); refreshErr == nil {
 						s.size = size
 					} else {
 						s.logger.Error("keystore: failed to refresh size after put: ", refreshErr)
@@ -314,7 +317,7 @@ func (s *ResettableKeystore) worker() {
 				err := s.delete(op.ctx, op.keys)
 				op.response <- operationResponse{err: err}
 				if err != nil {
-					if size, refreshErr := refreshSize(op.ctx, s.ds); refreshErr == nil {
+					if size, refreshErr := refreshSize(context.WithoutCancel(op.ctx), s.ds); refreshErr == nil {
 						s.size = size
 					} else {
 						s.logger.Error("keystore: failed to refresh size after delete: ", refreshErr)
@@ -327,7 +330,7 @@ func (s *ResettableKeystore) worker() {
 				if err == nil {
 					s.size = 0
 				} else {
-					if size, refreshErr := refreshSize(op.ctx, s.ds); refreshErr == nil {
+					if size, refreshErr := refreshSize(context.WithoutCancel(op.ctx), s.ds); refreshErr == nil {
 						s.size = size
 					} else {
 						s.logger.Error("keystore: failed to refresh size after empty: ", refreshErr)
